@@ -78,6 +78,14 @@ def descs():
                            vars={"v": ((), lambda v: v["v"].values),
                                  "w": (("t",), lambda v: v["w"].values)},
                            vc={"t": [10, 20]}),
+        # (each result carries a scalar coordinate named like a swept
+        # argument, with a value of its own: the sweep's labels are the
+        # values swept)
+        "xds-selfcoord": dict(kind="dataset_sa", vn=[None], vd=[None],
+                              may_refuse=True,
+                              vars={"v": ((), lambda v: v["v"].values),
+                                    "w": (("t",), lambda v: v["w"].values)},
+                              vc={"t": [10, 20]}),
         "xda": dict(kind="dataarray", vn=[None], vd=[None],
                     vars={"v": (("t",), lambda v: v.values)},
                     vc={"t": [10, 20]}),
@@ -392,6 +400,11 @@ def check_case(case):
     except core.HarnessError:
         raise
     except Exception as e:
+        if d.get("may_refuse") and isinstance(e, ValueError):
+            # (results that contradict the sweep's own labels may be refused;
+            # accepted, they have to be labelled with the values swept)
+            return {"nontrivial": False, "outcome": "refused",
+                    "violations": []}
         return {"nontrivial": len(settings) >= 2, "outcome": "raised",
                 "violations": [(key("raised:" + type(e).__name__),
                                 "input %r spelling vn=%r vd=%r strat=%s: %r"
@@ -508,7 +521,9 @@ def check_case(case):
             s = dict(zip(dim_order, labels))
             try:
                 cell = ds[var].sel(s).values
-            except KeyError:
+            except (KeyError, ValueError, TypeError):
+                # (a coordinate of another type than the swept values cannot
+                # even be asked for them)
                 vio.append((key("label-missing"), "%s has no entry labelled "
                             "%r" % (var, s)))
                 break
